@@ -60,13 +60,24 @@ NoOpt == -1     \* -d / -D not given
 (*             cols : 1..4, or 0: line j of the item has ((j-1) % 4) + 1   *)
 (*                    columns (a mixture inside one batch),                *)
 (*             form : "dec" | "sexa" (first two columns sexagesimal),      *)
-(*             tail : the line ends in a comment]                          *)
+(*             tail : the line ends in a comment,                          *)
+(*             fail : which lines of the item lie outside the domain of    *)
+(*                    the operation (in the direction applied first), so   *)
+(*                    that the library does not count them as successes    *)
+(*                    and returns NaN for them: "none" | "all" | "first" | *)
+(*                    "mid" | "last" | "some" (every fourth line)]         *)
 (*   op    == "ok" (accepted by the library; opx picks one) | "bad"        *)
 (*   opts  == [inv, rt, z, t : BOOLEAN, d, D : Nat or NoOpt]               *)
 (***************************************************************************)
 IsCoord(it) == it.t = "c"
 Mult(it)    == IF it.rep = "fill" THEN B - 2 ELSE 1
 ColsAt(it, j) == IF it.cols = 0 THEN ((j - 1) % 4) + 1 ELSE it.cols
+FailAt(it, j) == CASE it.fail = "none"  -> FALSE
+                   [] it.fail = "all"   -> TRUE
+                   [] it.fail = "first" -> j = 1
+                   [] it.fail = "last"  -> j = Mult(it)
+                   [] it.fail = "mid"   -> j = (Mult(it) + 1) \div 2
+                   [] it.fail = "some"  -> j % 4 = 1
 
 ----------------------------------------------------------------------------
 (***************************************************************************)
@@ -95,6 +106,9 @@ Mode(o) == CASE ~o.inv /\ ~o.rt -> "fwd"           \* library forward
 Line(src, s) ==
     [f |-> src[1], i |-> src[2], j |-> src[3],
      cols |-> ColsAt(s.files[src[1]].items[src[2]], src[3]),
+     \* a tuple the library fails on is printed like every other one: the library's
+     \* result for it (NaN where the operation says so); `ok` only records the fact
+     ok   |-> ~FailAt(s.files[src[1]].items[src[2]], src[3]),
      mode |-> Mode(s.opts), dec |-> s.opts.d, dim |-> s.opts.D]
 
 ----------------------------------------------------------------------------
@@ -148,6 +162,15 @@ CatFiles(s, f) == IF f > Len(s.files) THEN <<>> ELSE CatItems(s, f, 1) \o CatFil
 CoordLines(s) == CatFiles(s, 1)
 RefOut(s) == LET L == CoordLines(s) IN [n \in 1..Len(L) |-> Line(L[n], s)]
 
+SrcFails(s, src) == FailAt(s.files[src[1]].items[src[2]], src[3])
+HasFailing(s) == \E n \in 1..Len(CoordLines(s)) : SrcFails(s, CoordLines(s)[n])
+\* The documentation does not say how a run ends when the operation is valid but some
+\* tuples fail: the exit status is then left open.  Under --roundtrip the program may
+\* also refuse to go on ("the two directions do not report the same number of
+\* results"): an error end, with what was written before staying a correct prefix.
+ExitDecided(s) == ~HasFailing(s)
+RefusalOpen(s) == s.opts.rt /\ HasFailing(s)
+
 Readable(s) == \A f \in 1..Len(s.files) : s.files[f].src # "missing"
 RefStatus(s) == IF s.op = "ok" /\ Readable(s) THEN "ok" ELSE "error"
 
@@ -173,7 +196,8 @@ VARIABLES shape,    \* the input and the command line (never changes)
           buf,      \* the batch being collected: Seq(<<f, i, j>>)
           res,      \* the batch after transformation
           out,      \* lines written to stdout so far
-          status    \* "run", then "ok" (normal end) or "error" (message on stderr, non-zero status)
+          status    \* "run", then "ok" (normal end), "error" (message on stderr, non-zero status)
+                    \* or "refused" (an error end that the documentation leaves open, see RefuseRoundtrip)
 
 vars == <<shape, pc, fi, ii, jj, buf, res, out, status>>
 
@@ -235,6 +259,13 @@ Transform == /\ pc = "transform"
              /\ buf' = <<>> /\ pc' = "format"
              /\ UNCHANGED <<shape, fi, ii, jj, out, status>>
 
+\* Left open by the documentation: with --roundtrip, a batch containing a tuple the
+\* library fails on may end the run with an error instead of being printed.
+RefuseRoundtrip == /\ pc = "transform" /\ shape.opts.rt
+                   /\ \E k \in 1..Len(buf) : SrcFails(shape, buf[k])
+                   /\ pc' = "done" /\ status' = "refused"
+                   /\ UNCHANGED <<shape, fi, ii, jj, buf, res, out>>
+
 Format == /\ pc = "format"
           /\ out' = out \o [k \in 1..Len(res) |-> Line(res[k].src, shape)]
           /\ res' = <<>>
@@ -243,7 +274,7 @@ Format == /\ pc = "format"
           /\ UNCHANGED <<shape, fi, ii, jj, buf>>
 
 Next == Instantiate \/ BadOperation \/ OpenFile \/ OpenFails \/ SkipLine \/ ReadCoord
-        \/ EndOfFile \/ EndOfInput \/ Transform \/ Format
+        \/ EndOfFile \/ EndOfInput \/ Transform \/ RefuseRoundtrip \/ Format
 
 Spec == Init /\ [][Next]_vars
 
@@ -251,7 +282,7 @@ Spec == Init /\ [][Next]_vars
 \* Properties
 
 TypeOK == /\ pc \in {"start", "open", "read", "transform", "format", "done"}
-          /\ status \in {"run", "ok", "error"}
+          /\ status \in {"run", "ok", "error", "refused"}
           /\ (status = "run") <=> (pc # "done")
           /\ Len(buf) <= B /\ Len(res) <= B
 
@@ -268,8 +299,13 @@ OneLinePerCoordInv == (pc = "done" /\ status = "ok") => out = RefOut(shape)
 
 \* how the run ends
 StatusInv == pc = "done" =>
-    status = IF RefStatus(shape) = "ok" /\ DEV_EmptyFinalBatch /\ Len(CoordLines(shape)) % B = 0
-             THEN "error" ELSE RefStatus(shape)
+    \/ status = IF RefStatus(shape) = "ok" /\ DEV_EmptyFinalBatch /\ Len(CoordLines(shape)) % B = 0
+                THEN "error" ELSE RefStatus(shape)
+    \/ status = "refused" /\ RefusalOpen(shape) /\ RefStatus(shape) = "ok"
+
+\* failing tuples do not cost output lines: every coordinate line, failed or not, is reported
+FailedLinesInv == (pc = "done" /\ status = "ok") =>
+    Cardinality({n \in 1..Len(out) : ~out[n].ok}) = Cardinality({n \in 1..Len(CoordLines(shape)) : SrcFails(shape, CoordLines(shape)[n])})
 
 \* empty input (no file content, or blank lines and comments only): no output, normal end
 EmptyInputInv == (pc = "done" /\ RefStatus(shape) = "ok" /\ CoordLines(shape) = <<>> /\ ~DEV_EmptyFinalBatch)
@@ -309,6 +345,10 @@ Emit == pc = "done" =>
         opts   |-> shape.opts,
         status |-> status,
         refstatus |-> RefStatus(shape),
+        refused |-> (status = "refused"),
+        exit_compared |-> ExitDecided(shape),
+        B      |-> B,
+        nfail  |-> Cardinality({n \in 1..Len(CoordLines(shape)) : SrcFails(shape, CoordLines(shape)[n])}),
         mode   |-> Mode(shape.opts),
         ones   |-> Cardinality({n \in 1..Len(h) : Files[h[n].f].items[h[n].i].rep = "one"}),
         fills  |-> Cardinality({n \in 1..Len(h) : Files[h[n].f].items[h[n].i].rep = "fill"}),
